@@ -442,6 +442,8 @@ class C01(TraceProp):
             yield c
         for _ in range(12 if tier == 'quick' else 400):
             yield proggen.sp_then_touch_case(rng)
+        for _ in range(12 if tier == 'quick' else 300):
+            yield proggen.same_value_inherited_case(rng)
 
     def pick_plugins(self, rng):
         return None
